@@ -3,6 +3,20 @@
 import json, os, re, sys
 ROOT = os.path.join(os.path.dirname(os.path.abspath(__file__)), '..', 'seeded')
 NEEDS = {
+ 'C01_5': "a layout whose storage order (custom BasisBladeOrder / legacy bladeTupList) does not store the scalar first",
+ 'C01_6': "the deprecated Layout(sig, bladeTupList) constructor with a tuple that is an odd permutation of ascending order, e.g. (2, 1)",
+ 'C03_5': "a grade-restricted kernel and operands of a dtype narrower than the native integer (int32; float32 / complex64 without the JIT)",
+ 'C03_6': "`M << s` / `M.lc(s)` with a non-integral float scalar on the right of an integer-dtype multivector with a scalar part",
+ 'C04_5': "normal() of a multivector with |M| < 1e-12 whose coefficient of largest modulus is negative",
+ 'C04_6': "even / odd in an even-dimensional algebra on a multivector with a pseudoscalar component",
+ 'C05_5': "inv() / division / negative power of a non-versor in a degenerate algebra with 6-8 basis vectors of which at most 5 are non-null",
+ 'C05_6': "two layouts of equal signature and different blade order; leftLaInv (inv() for n >= 6) on the second after the first",
+ 'C06_5': "left complement (or vee) in odd dimension on an odd-grade operand",
+ 'C06_6': "dual(J) with J a proper sub-blade and M not contained in J",
+ 'C07_5': "an unknown basis-vector id in the window first_index-n .. first_index-1 (e.g. 0 or -1 in Cl(3))",
+ 'C07_6': "custom basis-vector ids that are not ascending and a default-named blade of grade >= 2",
+ 'C08_5': "dg3c.down(dg3c.up(x)) at the origin (or |x| < 1e-8)",
+ 'C08_6': "up() of a non-zero null base vector (mixed-signature base) or of a vector with 1e-12 <= |x| < 1e-6",
  'C01_1': "a default-order layout of signature S used first, then a layout with the same S and a different blade order (two steps, one process)",
  'C01_2': "float or complex operands with coefficients of magnitude <= 1e-12 (e.g. products scaled by 2^-45)",
  'C01_3': "a signature with two or more zeros (two different null basis vectors multiplied)",
